@@ -1714,6 +1714,13 @@ func (c *Conn) readHeader(fr *FrameHeader, r *Ctx) error {
 	b := append(c.hdrPending, fr.Body().(FrameWithHeaders).Headers()...)
 	c.hdrPending = b[:0]
 
+	// malformed is the first reason the response is malformed. The rest of the
+	// fragment is still decoded for its effect on the dynamic table (the
+	// CONTINUATION frames that may follow are, too, as frames nobody claims):
+	// stopping at the bad field left the decoder out of step with the server,
+	// and a response that fails must not take the ones after it along.
+	var malformed error
+
 	for len(b) > 0 {
 		pb := b
 
@@ -1730,7 +1737,7 @@ func (c *Conn) readHeader(fr *FrameHeader, r *Ctx) error {
 			// CONTINUATION frame that has to follow.
 			if errors.Is(err, ErrUnexpectedSize) && !fr.Flags().Has(FlagEndHeaders) {
 				c.hdrPending = append(c.hdrPending, pb...)
-				return nil
+				return malformed
 			}
 
 			return err
@@ -1738,26 +1745,34 @@ func (c *Conn) readHeader(fr *FrameHeader, r *Ctx) error {
 
 		c.hdrFields++
 
+		if malformed != nil {
+			continue
+		}
+
 		// A response carries exactly one pseudo-header, :status, and it must
 		// come before any regular field.
 		// https://httpwg.org/specs/rfc7540.html#rfc.section.8.1.2.4
 		if hf.IsPseudo() {
 			if r.hdrRegular {
-				return errPseudoAfterRegular
+				malformed = errPseudoAfterRegular
+				continue
 			}
 
 			if !bytes.Equal(hf.KeyBytes(), StringStatus) {
-				return fmt.Errorf("invalid response pseudo-header %q", hf.KeyBytes())
+				malformed = fmt.Errorf("invalid response pseudo-header %q", hf.KeyBytes())
+				continue
 			}
 
 			n, err := parseUint(hf.ValueBytes())
 			if err != nil || n < 100 || n > 999 {
-				return errInvalidStatus
+				malformed = errInvalidStatus
+				continue
 			}
 
 			// exactly one, and none in the trailers
 			if r.hdrStatus != 0 || r.hdrBlocks > 0 {
-				return errInvalidStatus
+				malformed = errInvalidStatus
+				continue
 			}
 
 			r.hdrStatus = n
@@ -1770,23 +1785,30 @@ func (c *Conn) readHeader(fr *FrameHeader, r *Ctx) error {
 		r.hdrRegular = true
 
 		if hasUpperCase(hf.KeyBytes()) {
-			return errUpperCaseHeader
+			malformed = errUpperCaseHeader
+			continue
 		}
 
 		if isConnectionSpecific(hf.KeyBytes()) {
-			return errConnectionSpecific
+			malformed = errConnectionSpecific
+			continue
 		}
 
 		if bytes.Equal(hf.KeyBytes(), StringContentLength) {
 			n, err := parseUint(hf.ValueBytes())
 			if err != nil {
-				return errInvalidContentLength
+				malformed = errInvalidContentLength
+				continue
 			}
 
 			res.Header.SetContentLength(n)
 		} else {
 			res.Header.AddBytesKV(hf.KeyBytes(), hf.ValueBytes())
 		}
+	}
+
+	if malformed != nil {
+		return malformed
 	}
 
 	if fr.Flags().Has(FlagEndHeaders) {
